@@ -342,6 +342,9 @@ class ExprMixin:
             if s == z3.BoolSort():
                 a, b = z3.If(a, 1, 0), z3.If(b, 1, 0)
             return a + b
+        if s == z3.BoolSort() and isinstance(op, (ast.BitAnd, ast.BitOr, ast.BitXor)):
+            # bool | bool etc. is a bool in Python: exact
+            return simp(z3.And(a, b) if isinstance(op, ast.BitAnd) else z3.Or(a, b) if isinstance(op, ast.BitOr) else z3.Xor(a, b))
         if s == z3.BoolSort():
             a, b = z3.If(a, 1, 0), z3.If(b, 1, 0)
             s = z3.IntSort()
@@ -557,6 +560,20 @@ class ExprMixin:
                 return res
             if isinstance(base, str):
                 base = z3.StringVal(base)
+            elif isinstance(base, dict) and all(isinstance(k_, (str, int)) for k_ in base):
+                # symbolic key into a concrete dict: one of its keys, else KeyError
+                keys = list(base)
+                if self.cur_pure():
+                    if not keys:
+                        return Bottom()
+                    res = base[keys[-1]]
+                    for k_ in reversed(keys[:-1]):
+                        res = self.ite(self.eq(idx, k_), base[k_], res)
+                    return res
+                for k_ in keys:
+                    if self.path.branch(self.eq(idx, k_)):
+                        return base[k_]
+                raise PyRaise(KeyError, (), node, implicit=True)
             else:
                 raise Unsupported('symbolic index into concrete container')
         if isinstance(base, VBox) and base.kind == 'dict':
@@ -644,7 +661,14 @@ class ExprMixin:
         if isinstance(base, (VBox, PyList, PyDict, VMatch)) or z3.is_expr(base):
             return BoundMethod(base, attr)
         if isinstance(base, VObj):
+            me = getattr(self.cur_contract, 'method_effects', None) or {}
+            if attr in me:
+                return Builtin('effect:' + attr, lambda a, k, n, f, attr=attr, base=base: self.do_effect(attr, [base] + list(a), k, me[attr], n, f))
             return self.obj_attr(base, attr, node)
+        if isinstance(base, types.ModuleType):
+            ef = getattr(self.cur_contract, 'effects', None) or {}
+            if attr in ef:
+                return Builtin('effect:' + attr, lambda a, k, n, f, attr=attr: self.do_effect(attr, a, k, ef[attr], n, f))
         if type(base).__name__ == 'VFile':
             return BoundMethod(base, attr)
         if type(base).__name__ == 'SuperProxy':
